@@ -4,12 +4,14 @@ import (
 	"bytes"
 	"fmt"
 	"sort"
+	"strconv"
 	"strings"
 
 	"github.com/cybergarage/go-redis/redis"
 	"verif/double"
 	"verif/gen"
 	"verif/grammar"
+	"verif/resp"
 	"verif/rng"
 	"verif/run"
 	"verif/sconn"
@@ -52,7 +54,20 @@ func c11get(idx int) pipeCase {
 				}
 			}
 		}
-		pc.Reqs = append(pc.Reqs, pipeReq{Kind: "valid", V: v, Req: v.Value()})
+		req := v.Value()
+		if idx%3 == 1 && r.Chance(1, 2) {
+			// the same request with its last argument sent as a RESP line type (simple string, or integer when it is
+			// a number) instead of a bulk string: a line has no length prefix, only its CRLF says where it ends
+			if last := len(req.A) - 1; last >= 1 && req.A[last].K == '$' && !req.A[last].Null && len(req.A[last].B) > 0 && !bytes.ContainsAny(req.A[last].B, "\r\n") {
+				req.A = append([]resp.Value{}, req.A...)
+				k := byte('+')
+				if _, err := strconv.ParseInt(string(req.A[last].B), 10, 64); err == nil && r.Bool() {
+					k = ':'
+				}
+				req.A[last] = resp.Value{K: k, B: req.A[last].B}
+			}
+		}
+		pc.Reqs = append(pc.Reqs, pipeReq{Kind: "valid", V: v, Req: req})
 	}
 	return pc
 }
@@ -258,7 +273,7 @@ func init() {
 	run.Register(&run.Prop{
 		ID: "C11", Level: "fault_enumeration",
 		Rule: func(tier string) string {
-			return "case = one pipeline of 1..5 valid requests (request 0 rotates over every grammar entry) and EVERY byte offset of its encoding as the point where the stream ends, x {half-close (reads return EOF, writes succeed), reset, full close (reads return EOF and the reply writes fail from the first or second on; only where >= 2 requests are complete)} x {prefix delivered whole, 1-byte chunks}; complete per pipeline. Oracle (differential against the uncut run of the same pipeline): recorded handler calls are exactly the calls of the requests whose last byte was delivered (per-request multiset, in request order), the bytes written are exactly those requests' replies, the connection loop returned, the connection was closed and Server.Conns() is empty. distinct_nontrivial = distinct (pipeline, offset, ending, delivery) with the cut strictly inside a request; counters cut:* classify where the cut fell"
+			return "case = one pipeline of 1..5 valid requests (request 0 rotates over every grammar entry; in a third of the pipelines half of the requests carry their last argument as a simple-string or integer line instead of a bulk string) and EVERY byte offset of its encoding as the point where the stream ends, x {half-close (reads return EOF, writes succeed), reset, full close (reads return EOF and the reply writes fail from the first or second on; only where >= 2 requests are complete)} x {prefix delivered whole, 1-byte chunks}; complete per pipeline. Oracle (differential against the uncut run of the same pipeline): recorded handler calls are exactly the calls of the requests whose last byte was delivered (per-request multiset, in request order), the bytes written are exactly those requests' replies, the connection loop returned, the connection was closed and Server.Conns() is empty. distinct_nontrivial = distinct (pipeline, offset, ending, delivery) with the cut strictly inside a request; counters cut:* classify where the cut fell"
 		},
 		Exhaustive:  func(string) bool { return false },
 		Assumptions: []string{"the scripted connection delivers all bytes before the cut even when the ending is a reset (a real RST may discard unread data; then fewer requests are complete)"},
